@@ -333,9 +333,13 @@ func execC12(x *Ctx, sc *wire.Scenario) *wire.Result {
 		if crashOracle(res, out, "C12") {
 			return res
 		}
-		if _, _, ok := firstReturn(out); !ok {
-			violation(res, "HANG", "C12.reread-returns", "reread-no-return",
-				fmt.Sprintf("after re-read-init-file of a damaged file the session did not return on Return: end=%s %s", out.End, out.EndDetail))
+		// The file read back may legitimately rebind any key (Return included, or make it the prefix
+		// of a longer sequence), so whether the call returns on the keys typed afterwards is not
+		// judged: the session must have survived (crashOracle: returned, or waiting for input).
+		if _, _, ok := firstReturn(out); ok {
+			res.Counters["reread:returned"]++
+		} else {
+			res.Counters["reread:still_waiting"]++
 		}
 		return res
 	}
